@@ -296,7 +296,7 @@ pub fn map_roundtrip<K: SimK, V: SimV, const C1: usize, const C2: usize>(m: &Map
             let mut ser = TokSer { log: Vec::new(), fail_at: None };
             if m.serialize(&mut ser).is_ok() {
                 if let Some(ents) = account("Map::serialize", &ser.log, pre, m.len(), true, K::ANON, V::ANON) {
-                    let mut de = TokDe { hint: hint_of(cfg.hint.min(1), ents.len()), entries: ents, pos: 0, pending_val: None, fail_at: None };
+                    let mut de = TokDe { hint: hint_of(cfg.hint % 3, ents.len()), entries: ents, pos: 0, pending_val: None, fail_at: None };
                     let r = catch_unwind(AssertUnwindSafe(|| Map::<K, V, C2>::deserialize(&mut de)));
                     match r {
                         Ok(Ok(d)) => {
@@ -452,7 +452,7 @@ pub fn set_roundtrip<K: SimK, V: SimV, const C1: usize, const C2: usize>(s: &Set
             let mut ser = TokSer { log: Vec::new(), fail_at: None };
             if s.serialize(&mut ser).is_ok() {
                 if let Some(ents) = account("Set::serialize", &ser.log, pre, s.len(), false, K::ANON, true) {
-                    let mut de = TokDe { hint: hint_of(cfg.hint.min(1), ents.len()), entries: ents, pos: 0, pending_val: None, fail_at: None };
+                    let mut de = TokDe { hint: hint_of(cfg.hint % 3, ents.len()), entries: ents, pos: 0, pending_val: None, fail_at: None };
                     let r = catch_unwind(AssertUnwindSafe(|| Set::<K, C2>::deserialize(&mut de)));
                     match r {
                         Ok(Ok(d)) => {
